@@ -23,7 +23,7 @@ pub fn check(tier: Tier) -> Check {
         deciding: vec!["C07"],
         streams: vec![
             Stream::new("store-module", tier.pick(32, 320), c0607::store_module),
-            Stream::new("handler", tier.pick(96, 3200), |ctx, idx| c0607::handler_history(ctx, idx, "C07")),
+            Stream::new("handler", tier.pick(96, 3200), |ctx, idx| c0607::handler_history(ctx, idx, "C07")).budget(tier.pick(900.0, 3000.0), tier.pick(96, 1600)),
         ],
         require: vec![
             ("announces_accepted", tier.pick(100_000, 5_000_000)),
